@@ -160,6 +160,11 @@ def labels_of_scenario(sc, with_quiesce=True):
                 if wake:
                     i += 1
                 add("LHDrop %s %d %s" % (key(lf[0], lf[1]), lf[2], B(a[6])), se(rec=lf, refs=a[5] + 1, outs=["OWakeConn"] if wake else []))
+            elif nm == "streams.ref_drop_end":
+                wake = i < len(evs) and evs[i][0] == "streams.wake_conn"
+                if wake:
+                    i += 1
+                add("LHDropEnd", se(refs=a[0], outs=["OWakeConn"] if wake else []))
             elif nm == "streams.clone":
                 add("LSClone", se(refs=a[0], outs=[]))
             elif nm == "streams.drop":
@@ -445,12 +450,12 @@ def quiescence_oracle(sc):
     last = sc["trace"][-1]
     if any(isinstance(st["res"], dict) and "panic" in st["res"] for st in sc["trace"]):
         return None, None, "panicked"
-    leak_step, leak_known = reset_counter_leak(sc)
+    leak_step, _mech = reset_counter_leak(sc)
     known = None
     if leak_step is not None:
-        if not leak_known:
-            return {"why": "num_local_reset_streams exceeds the number of records awaiting reset expiry (counter leak)", "step": sc["trace"][leak_step]["i"]}, None, "checked"
-        known = "KF-C19-1 reset-expiry-before-rst-flushed: num_local_reset_streams not given back"
+        # repaired by 304fa07 (expiry before the RST_STREAM was flushed); any recurrence is a violation
+        return {"why": "num_local_reset_streams exceeds the number of records awaiting reset expiry (counter leak)",
+                "step": sc["trace"][leak_step]["i"], "expiry_of_unflushed_reset_seen": _mech}, None, "checked"
     if client:
         if before is not None and before != "Ready(Ok)":
             return None, known, "failed-before-teardown"
@@ -465,18 +470,11 @@ def quiescence_oracle(sc):
         if not last["io"]["shutdown"]:
             return {"why": "idle client connection completed without shutting the transport down"}, known, "checked"
         if at_kick is None:
-            # completed only because of the unsolicited poll: a lost wake-up.  Known class KF-C19-2: Inner.refs fell to 1 by the drop
-            # of a stream handle whose stream was not closed (drop_stream_ref wakes only for closed streams), task registered, not woken
+            # completed only because of the unsolicited poll: a lost wake-up (the case "last handle of an unclosed stream dropped"
+            # was repaired by 6b1d165)
             hit = last_ref_drop_step(sc, k)
-            if hit is not None and not hit[1]:
-                j = hit[0]
-                opn = sc["trace"][j]["op"].get("op", "")
-                prev = next((sc["trace"][x]["snap"] for x in range(j - 1, -1, -1) if sc["trace"][x].get("snap")), None)
-                open_before = prev is not None and any(s["ref_count"] > 0 and not rec_closed(s) for s in prev["streams"])
-                if opn.startswith("drop_") and open_before:
-                    return None, "KF-C19-2 last-handle-drop-without-wake: idle client connection closes only when polled by someone else", "checked"
             return {"why": "the idle client connection completed only after an unsolicited poll (lost wake-up of the connection task)",
-                    "refs_fell_to_1_at": sc["trace"][hit[0]]["i"] if hit else None}, known, "checked"
+                    "refs_fell_to_1_at": sc["trace"][hit[0]]["i"] if hit else None, "woken_there": hit[1] if hit else None}, known, "checked"
         return None, known, "checked"
     if final is not None:
         return None, known, "server-ended"
